@@ -100,6 +100,9 @@ type sys struct {
 	where    string // behaviour / step being replayed (diagnostics only)
 	where0   string
 	co       *coordState // non-nil: API moves go through the real coordinator where they can
+	gid       string // goroutine id of the lane (NewScheduler's goroutines say "created by ... in goroutine <gid>")
+	panicked  bool   // an execution of this instance has ended with a panic
+	holding   bool   // the driver holds the scheduler's lock at the moment
 	lane      int  // replay lane (picks the marker frame of this instance's API calls)
 	apiWaited bool // an API call returned only after the held executions were let go: the scripted part is over
 	ckFail   func() bool // seeded: should this checkpoint call report an error?
@@ -215,7 +218,7 @@ func pickIDs(wof []int) (ids map[int]scheduler.ID, sent map[scheduler.ID]int) {
 }
 
 func newSys(t *rt.Trace, lane int, wof []int, ckFail func() bool) *sys {
-	y := &sys{t: t, lane: lane, mock: clock.NewMock(), notify: make(chan struct{}, 1), ckFail: ckFail,
+	y := &sys{t: t, lane: lane, gid: selfGid(), mock: clock.NewMock(), notify: make(chan struct{}, 1), ckFail: ckFail,
 		sentExec: map[scheduler.ID]int{}, sentCk: map[scheduler.ID]int{}, seen: map[[2]int]int{}}
 	y.mock.Set(base)
 	y.real, y.sent = pickIDs(wof)
@@ -270,7 +273,9 @@ func (y *sys) within(what string, f func()) {
 // waitFor blocks until pred() holds (checked under y.mu); every observation pings.
 // giveUp (optional, checked now and then without y.mu held) lets the caller stop waiting for a positive reason.
 func (y *sys) waitFor(what string, pred func() bool, giveUp func() bool) bool {
-	end := time.Now().Add(deadline)
+	t0 := time.Now()
+	nextJudge := 1500 * time.Millisecond
+	end := t0.Add(deadline)
 	poll := time.NewTimer(time.Hour)
 	defer poll.Stop()
 	for i := 0; ; i++ {
@@ -285,6 +290,10 @@ func (y *sys) waitFor(what string, pred func() bool, giveUp func() bool) bool {
 		}
 		if time.Now().After(end) {
 			y.fatal("waited %v for %s", deadline, what)
+		}
+		if el := time.Since(t0); el > nextJudge {
+			y.judgeIfStuck(what)
+			nextJudge = el + 2*time.Second
 		}
 		poll.Reset(20 * time.Millisecond)
 		select {
@@ -337,7 +346,7 @@ func (y *sys) safeAdd(d int, locked func()) bool {
 		}
 		target := y.mock.Now().Add(time.Duration(d) * time.Second)
 		if len(y.tmr.C) == 1 && timerWouldFire(y.tmr, target) {
-			y.smu.Unlock()
+			y.unlockSched()
 			time.Sleep(100 * time.Microsecond)
 			continue
 		}
@@ -345,7 +354,7 @@ func (y *sys) safeAdd(d int, locked func()) bool {
 			locked() // e.g. log AdvBegin: only once it is certain that the clock will move
 		}
 		y.within("mock.Add", func() { y.mock.Add(time.Duration(d) * time.Second) })
-		y.smu.Unlock()
+		y.unlockSched()
 		return true
 	}
 	return false
@@ -473,7 +482,9 @@ func (y *sys) flush() {
 
 // settle waits until the scheduler is quiescent by its own account and every worker is flushed, with all gates open.
 func (y *sys) settle() {
-	end := time.Now().Add(deadline)
+	t0 := time.Now()
+	nextJudge := 1500 * time.Millisecond
+	end := t0.Add(deadline)
 	for {
 		y.waitFor("executions to finish", func() bool { return y.runaway || y.nStart == y.nCkpt }, nil)
 		y.mu.Lock()
@@ -483,6 +494,11 @@ func (y *sys) settle() {
 			y.fatal("runaway: the scheduler handed out more than %d executions", maxExecutions)
 		}
 		if !y.selfQuiescent() {
+			if el := time.Since(t0); el > nextJudge {
+				y.judgeIfStuck("the scheduler to run what is due")
+				y.nudgeClock()
+				nextJudge = el + 2*time.Second
+			}
 			if time.Now().After(end) {
 				y.fatal("scheduler still has due work after %v (When=%d now=%d chanlen=%d)", deadline, rel(y.s.When()), rel(y.mock.Now()), y.chanLen())
 			}
